@@ -39,6 +39,24 @@ impl GraphColoredVertices {
     pub fn minus_colors(&self, _c: &GraphColors) -> Self { unimplemented!() }
     pub fn intersect_colors(&self, _c: &GraphColors) -> Self { unimplemented!() }
 }
+impl GraphVertices {
+    pub fn union(&self, _o: &Self) -> Self { unimplemented!() }
+    pub fn intersect(&self, _o: &Self) -> Self { unimplemented!() }
+    pub fn minus(&self, _o: &Self) -> Self { unimplemented!() }
+    pub fn is_empty(&self) -> bool { unimplemented!() }
+    pub fn is_subset(&self, _o: &Self) -> bool { unimplemented!() }
+    pub fn approx_cardinality(&self) -> f64 { unimplemented!() }
+}
+impl GraphColors {
+    pub fn union(&self, _o: &Self) -> Self { unimplemented!() }
+    pub fn intersect(&self, _o: &Self) -> Self { unimplemented!() }
+    pub fn minus(&self, _o: &Self) -> Self { unimplemented!() }
+    pub fn is_empty(&self) -> bool { unimplemented!() }
+    pub fn is_subset(&self, _o: &Self) -> bool { unimplemented!() }
+    pub fn approx_cardinality(&self) -> f64 { unimplemented!() }
+}
+impl Clone for GraphVertices { fn clone(&self) -> Self { unimplemented!() } }
+impl Clone for GraphColors { fn clone(&self) -> Self { unimplemented!() } }
 impl Clone for GraphColoredVertices { fn clone(&self) -> Self { unimplemented!() } }
 impl PartialEq for GraphColoredVertices { fn eq(&self, _o: &Self) -> bool { unimplemented!() } }
 impl Clone for Bdd { fn clone(&self) -> Self { unimplemented!() } }
